@@ -6,6 +6,7 @@ mod c04;
 mod c10;
 mod c12;
 mod c13;
+mod c17;
 mod c19;
 mod util;
 
@@ -24,11 +25,14 @@ fn main() {
       }
       let cases = read_cases(&args[3]);
       let mut rep = Report::new();
+      start_watchdog(args[2].to_lowercase(), args[4].clone(), 25);
+      note_case(&serde_json::json!("start"));
       match args[2].as_str() {
         "C04" => c04::replay(&cases, &mut rep),
         "C10" => c10::replay(&cases, &mut rep),
         "C12" => c12::replay(&cases, &mut rep),
         "C13" => c13::replay(&cases, &mut rep),
+        "C17" => c17::replay(&cases, &mut rep),
         "C19" => c19::replay(&cases, &mut rep),
         p => tool_error(&format!("no replay driver for {p}")),
       }
